@@ -24,7 +24,7 @@ P = {
     "C12": (False, "unit (qualifier) inference Cols/Bytes", "Static rule discharge of unit discipline: column counts and byte offsets are never mixed in padding/truncation. Rendered width for all strings is NOT decided.", "3/C12"),
     "C14": (True, "field-invariant producer/consumer + panic ledger", "Static rule discharge: every divisor/index bound the renderer takes from a style table is established by a guard at every public writer of that table; render-path panic ledger.", "3/C14"),
     "C15": (True, "panic-edge ledger (totality)", "Static rule discharge of totality: no unaudited panic edge in format.rs Display impls. Faithfulness/monotonicity NOT decided.", "3/C15"),
-    "C16": (False, "setter/holder completeness dataflow", "Static rule discharge: every text setter expands with the bar's current width; every width/style change reaches every holder of expanded text; cache invalidation pairing; encapsulation of the raw text.", "3/C16"),
+    "C16": (True, "setter/holder completeness dataflow", "Static rule discharge: every text setter expands with the bar's current width; every width/style change reaches every holder of expanded text; cache invalidation pairing; encapsulation of the raw text.", "3/C16"),
     "C17": (True, "wrapper transparency + effect placement + sibling agreement", "Static rule discharge over every trait method implemented for ProgressBarIter and the rayon wrappers: arguments/results pass through, count exactly once on success from the transferred amount, sync/async siblings agree. Not rayon scheduling.", "3/C17"),
     "C18": (True, "error-discipline rules over MIR (no-unwrap, pure Err exits, commit-on-success, result reporting)", "Static rule discharge: no io::Result is unwrapped; Err exits are pure; commit only after a successful flush; explicit io::Result APIs return the draw result.", "3/C18"),
     "C19": (True, "who-constructs (newtype) + control dependence", "Static rule discharge: row accounting uses the wrap-aware measure everywhere, painting of bar lines is guarded by the terminal height, committed count equals painted rows. Not the wrap arithmetic itself.", "3/C19"),
